@@ -5,7 +5,7 @@ EXTENDS Formak
 cShapes == {[nS |-> a, nC |-> b, nK |-> c, sens |-> <<>>] : a \in 1..2, b \in 0..1, c \in 0..1}
 cSyms == {"b", "A0", "a_", "a1"}
 cSeq == <<"b", "A0", "a_", "a1">>
-cOps == {"add","sub","mul","div","neg","pow2","pow3","sin","cos","exp","tanh","atan","sqrt1","log1","tan","asinb","acosb","muldt"}
+cOps == {"add","sub","mul","div","neg","pow2","pow3","sin","cos","exp","tanh","atan","sqrt1","log1","tan","asinb","acosb","muldt","abs1"}
 cConsts == <<RI(2), RQ(1,2)>>
 cVals == <<RI(1), RI(-2), RI(3), RQ(1,2)>>
 cDts == <<RQ(1,4)>>
